@@ -97,7 +97,7 @@ func notNeeded(date string, todo work) bool {
 	}
 	// maybe the report is already in todo.readyfiles
 	for _, f := range todo.readyfiles {
-		if strings.Contains(f, date) {
+		if filepath.Base(f) == date+".json" {
 			return true
 		}
 	}
